@@ -35,7 +35,7 @@ int xv_threw; uint64_t xv_clock, xv_rmw_old; _Bool xv_cas_ok;
 #define XV_WORD uint16_t       /* opaque words: only copied and compared by the code (data independence); 15 value bits + mark bit */
 #endif
 typedef XV_WORD word_t;
-typedef word_t marked_ptr, guard_ptr, raw_value_type, value_type, marked_value;
+typedef word_t marked_ptr, marked_ptr_t, guard_ptr, raw_value_type, value_type, marked_value, marked_value_t;
 typedef struct { _Bool has; word_t v; } optval;
 #define XV_NULLOPT ((optval){0, 0})
 #define OPT_has(o) ((o).has)
@@ -252,7 +252,7 @@ static unsigned tk(unsigned k) { for (unsigned c = 0; c <= XV_E; c++) if (k == c
 static unsigned tk_any(unsigned t) {
   for (unsigned c = 0; c <= XV_E + 4; c++) if (t == c) return TK(c);
   /* far beyond the node: only "counter >= max_idx" matters to the code; any such value (a superset of the multiples of step_size) */
-  unsigned v = nondet_uint(); XV_ASSUME(v >= TK(XV_E + 5) && v < TK(MAXT)); return v;
+  unsigned v = nondet_uint(); XV_ASSUME(v >= TK(XV_E + 5) && v < TK(MAXT / 2)); return v;
 }
 struct node s_pre[NN]; word_t s_head0, s_tail0;      /* pre-state snapshot (the cut-loop invariants refer to it) */
 /* representation invariant of one node (what concurrent pushes/pops can leave behind at any instant);
